@@ -124,12 +124,13 @@ def replay(scn):
     viol = []
     calls = 0
     nd = len(a_abs["dims"])
-    kind_variants = ["i", "s"] if i["fam"] == "forms" and i["mode"] == "label" else ["i"]
+    kind_variants = [("i", 0)]
     if i["fam"] == "forms" and i["mode"] == "label":
-        kind_variants = ["i", "f", "s"]
-    for vi, kind in enumerate(kind_variants):
+        kind_variants = [("i", 0), ("f", 0), ("s", 0), ("i", -4)]
+    for vi, (kind, off) in enumerate(kind_variants):
         kinds = [kind] * nd
-        codec = A.LabelCodec()
+        codec = A.LabelCodec(offset=off)
+        kind = kind + ("@%d" % off if off else "")
         for si, sp in enumerate(_spellings(i)):
             tup = index_tuple(i["idxs"], kinds, codec, i["mode"], (si + vi) % 2) if i["fam"] not in ("mask",) else None
             rhs = _conc_rhs(i["rhs"])
